@@ -34,3 +34,6 @@ LP/DriverSound.vos LP/DriverSound.vok LP/DriverSound.required_vos: LP/DriverSoun
 LP/Agree.vo LP/Agree.glob LP/Agree.v.beautified LP/Agree.required_vo: LP/Agree.v LP/DriverSound.vo LP/Unique.vo
 LP/Agree.vio: LP/Agree.v LP/DriverSound.vio LP/Unique.vio
 LP/Agree.vos LP/Agree.vok LP/Agree.required_vos: LP/Agree.v LP/DriverSound.vos LP/Unique.vos
+Store/Spec.vo Store/Spec.glob Store/Spec.v.beautified Store/Spec.required_vo: Store/Spec.v LP/User.vo
+Store/Spec.vio: Store/Spec.v LP/User.vio
+Store/Spec.vos Store/Spec.vok Store/Spec.required_vos: Store/Spec.v LP/User.vos
